@@ -82,7 +82,10 @@ def truth(state, v):
         if isinstance(o, SetObj):
             if o.items is not None:
                 return len(o.items) > 0
-            raise OutOfSubset("truthiness of a symbolic set")
+            ne = getattr(o, "nonempty", None)
+            if ne is None:
+                raise OutOfSubset("truthiness of a symbolic set")
+            return ne
         if isinstance(o, FrameObj):
             return o.n > 0
         return True
